@@ -105,6 +105,19 @@ def scale_rule(ctx, rule, cls="IdealReservoir"):
             st = [e for e in p.events if e.kind == "store_attr" and getattr(e.data.get("base"), "name", None) == "self"]
             same = len(st) == 1 and it.to_nf(st[0].data["value"]) == v
             ctx.check(same, rule, q + f":stored == returned [density={density}]", m.where(), "the returned recovery is the one cached in self.recovery", signature="stored != returned")
+            # the scale, by value (whatever the scale method is called and however it is reached through the MRO): the
+            # ideal reservoir's recovery carries the factor 1 - p_frac/p_initial and nothing else of the two pressures; a
+            # real-fluid reservoir's recovery does not depend on them at all (its pseudopressure scaling carries the factor)
+            pf, pi_ = nf.sym("self.pressure_fracface"), nf.sym("self.pressure_initial")
+            if cls == "IdealReservoir":
+                # v == v0 * (1 - pf/pi) with v0 free of both pressures:  v * pi == v0 * (pi - pf), v0 := v at pf = 0
+                v0 = nf.subst_sym(v, {"self.pressure_fracface": {}})
+                ok = not nf.depends(v0, "self.pressure_initial") and not nf.depends(v0, "self.pressure_fracface") and nf.is_zero(nf.sub(nf.mul(v, pi_), nf.mul(v0, nf.sub(pi_, pf))))
+                what = "recovery == cumulative * (1 - pressure_fracface / pressure_initial) for the ideal reservoir"
+            else:
+                ok = not nf.depends(v, "self.pressure_fracface") and not nf.depends(v, "self.pressure_initial")
+                what = "recovery == cumulative * 1 for a real-fluid reservoir (no explicit dependence on the configured pressures)"
+            ctx.check(ok, rule, q + f":scale [density={density}]", m.where(), what, signature="recovery scale", value=nf.show(v, 200))
 
 
 def fvf_and_alpha(ctx, rule):
@@ -115,16 +128,17 @@ def fvf_and_alpha(ctx, rule):
         rule, RES + "IdealReservoir.fvf_scale", m.where(), "ideal-gas recovery scale == 1 - pressure_fracface / pressure_initial",
         it.to_nf(p.value), nf.sub(nf.ONE, nf.div(nf.sym("self.pressure_fracface"), nf.sym("self.pressure_initial"))),
     )
-    it, m, paths = method_paths(ctx, "SinglePhaseReservoir", "fvf_scale")
-    p = returns(paths)[0]
-    ctx.identity(rule, RES + "SinglePhaseReservoir.fvf_scale", m.where(), "real-fluid recovery scale == 1 (the pseudopressure scaling carries it)", it.to_nf(p.value), nf.ONE)
-    it, m, paths = method_paths(ctx, "SinglePhaseReservoir", "alpha_scaled")
-    p = returns(paths)[0]
-    a = lambda x: nf.fn("self.fluid.alpha", x)
-    ctx.identity(
-        rule, RES + "SinglePhaseReservoir.alpha_scaled", m.where(), "scaled diffusivity == alpha(m) / alpha(m_i) with the fluid's own interpolator",
-        it.to_nf(p.value), nf.div(a(nf.sym("pseudopressure")), a(nf.sym("self.fluid.m_i"))),
-    )
+    for rcls in ("SinglePhaseReservoir", "TwoPhaseReservoir"):  # each concrete real-fluid class, through its own MRO
+        it, m, paths = method_paths(ctx, rcls, "fvf_scale")
+        p = returns(paths)[0]
+        ctx.identity(rule, RES + rcls + ".fvf_scale", m.where(), "real-fluid recovery scale == 1 (the pseudopressure scaling carries it)", it.to_nf(p.value), nf.ONE)
+        it, m, paths = method_paths(ctx, rcls, "alpha_scaled")
+        p = returns(paths)[0]
+        a = lambda x: nf.fn("self.fluid.alpha", x)
+        ctx.identity(
+            rule, RES + rcls + ".alpha_scaled", m.where(), "scaled diffusivity == alpha(m) / alpha(m_i) with the fluid's own interpolator",
+            it.to_nf(p.value), nf.div(a(nf.sym("pseudopressure")), a(nf.sym("self.fluid.m_i"))),
+        )
     it, m, paths = method_paths(ctx, "IdealReservoir", "alpha_scaled")
     p = returns(paths)[0]
     ctx.identity(rule, RES + "IdealReservoir.alpha_scaled", m.where(), "ideal scaled diffusivity == 1", it.to_nf(p.value), nf.ONE)
